@@ -209,6 +209,10 @@ func (s *Scn) do(op string) Outcome {
 		return appWrite(func() error {
 			return s.wexec("DELETE FROM t WHERE id > (SELECT min(id) FROM t)")
 		})
+	case "DL": // delete only the newest row (a partial shrink once vacuumed)
+		return appWrite(func() error {
+			return s.wexec("DELETE FROM t WHERE id = (SELECT max(id) FROM t) AND id > (SELECT min(id) FROM t)")
+		})
 	case "DDL":
 		return appWrite(func() error {
 			k := s.ddlN / 2
